@@ -230,6 +230,17 @@ entry("eax_check_tag", "C08_aead.c", ["src/aead/eax.c", SC + "aes_ct.c", SC + "a
 # observations even for a 1-byte scalar (point decoding, modular inversion for the affine conversion,
 # 255 ladder steps for Curve25519 whatever the scalar length) -- hours of symex; dropped (META outside_claim).
 ECC = ["src/codec/ccopy.c", "src/codec/enc32be.c", "src/codec/dec32be.c"]
+ECP = ["src/ec/ec_prime_i15.c", "src/ec/ec_secp256r1.c", "src/ec/ec_secp384r1.c", "src/ec/ec_secp521r1.c"]
+ECSTUB = "scalar bytes, point bytes, all data produced by the stubbed callees"
+ECPUB = "xlen, curve, addresses, bit-length header words; br_i15_{add,sub,montymul,modpow,decode_mod,encode,iszero} and br_ccopy are observation-only stubs (ctl arguments not logged)"
+entry("ec_prime_i15_drv_mul", "C08_ecdrv.c", ECP, ["api_mul"],
+      [S("p256-x2", 240, FN=1, CURVE=23, XLEN=2), S("p256-x3", 240, FN=1, CURVE=23, XLEN=3, tier="thorough"), S("p384-x2", 240, FN=1, CURVE=24, XLEN=2, tier="thorough")],
+      quick_opts=("Os",), desc="control structure of ec_prime_i15 api_mul (point_decode, point_mul, point_encode, run_code) over observation-only big-integer stubs",
+      secret=ECSTUB, public=ECPUB)
+entry("ec_prime_i15_drv_mulgen", "C08_ecdrv.c", ECP, ["api_mulgen"],
+      [S("p256-x2", 240, FN=2, CURVE=23, XLEN=2, tier="thorough"), S("p384-x2", 240, FN=2, CURVE=24, XLEN=2, tier="thorough")],
+      quick_opts=("Os",), desc="control structure of ec_prime_i15 api_mulgen over observation-only big-integer stubs",
+      secret=ECSTUB, public=ECPUB)
 entry("ec_p256_m15_p256_mul", "C08_ecmul.c", ["src/ec/ec_p256_m15.c"] + ECC, ["p256_mul"],
       [S("x1", 300, XLEN=1, tier="thorough")], opts=("Os",), real_units=["src/ec/ec_secp256r1.c"] + ECC, timeout=900,
       desc="ec_p256_m15 p256_mul (window look-up by CCOPY, Jacobian double/add), 1-byte scalar", secret="scalar, point coordinate limbs", public="xlen, addresses")
@@ -508,14 +519,14 @@ def mkq(e, opt, sz, tv):
     write_logh(logh, logn, divn)
     tier = q_tier(e, opt, sz)
     memn = sz["memn"] or max(300, sz["unwind"])
-    uwd = {"c08_cmploop.0": logn + 2, "c08_cmpdiv.0": divn + 2, "ir_memcpy_.0": memn, "ir_memset_.0": memn,
+    uwd = {"c08_cmploop.0": logn + 2, "c08_cmpdiv.0": divn + 2, "ir_memcpy_.0": memn, "ir_memcpy_.1": memn, "ir_memcpy_.2": memn, "ir_memset_.0": memn,
            "ir_memmove_.0": memn, "ir_memmove_.1": memn}
     for x in sz["unwindset"]:
         k, _, v = x.rpartition(":")
         uwd[k] = int(v)
     uw = ["%s:%d" % kv for kv in uwd.items()]
     return Q(qname(e, opt, sz), e["harness"],
-             defs=["-I" + GEN, "-DC08_GEN=\"%s_%s.c\"" % (e["name"], opt), "-DC08_LOGN=%d" % logn, "-DC08_DIVN=%d" % divn, "-DC08_LOGH=\"%s\"" % logh, "-DVLOG_MAX=20000"] + e["cdefs"] + size_defs(sz),
+             defs=["-I" + GEN, "-DC08_GEN=\"%s_%s.c\"" % (e["name"], opt), "-DC08_LOGN=%d" % logn, "-DC08_DIVN=%d" % divn, "-DC08_LOGH=\"%s\"" % logh, "-DVLOG_MAX=200000"] + e["cdefs"] + size_defs(sz),
              unwind=sz["unwind"], unwindset=uw, fsarray=e["fsarray"], backend=e["backend"], timeout=e["timeout"] if tier == "quick" else 900,
              tier=tier, config=e["config"], checks=False, flags=["--no-standard-checks"],
              desc="%s at clang -%s, %s: same branch/address/length/call-target/division-operand trace for all secrets (%s); public: %s; %d observations per run" %
